@@ -51,7 +51,7 @@ pub struct Check {
 }
 
 fn st(space: &'static str, f: CaseFn, bound: (u32, u32), tiers: u8, what: &'static str) -> Stage {
-    Stage { space, f, bound, tiers, timeout_s: 20, what, hw_compare: false, twice: false }
+    Stage { space, f, bound, tiers, timeout_s: 60, what, hw_compare: false, twice: false }
 }
 
 pub fn checks() -> Vec<Check> {
@@ -66,7 +66,7 @@ pub fn checks() -> Vec<Check> {
             st("c01.s4", c01::s4, (0, 0), 3, "hooked packet capacity 1..9 x npoints 0..3c+1 x every catalogue type"),
             st("c01.s6", c01::s6, (0, 0), 3, "extension attribute of every catalogue type at the first/last prototype position x capacity {1,3} x npoints {0,1,4} x one or two registered extensions"),
             st("c01.s7", c01::s7, (0, 0), 3, "every attribute-group subset (3 coordinate kinds x 2^10 group/flag bits, invalid combinations skipped), 5 points, capacity 2"),
-            Stage { timeout_s: 60, ..st("c01.s8", c01::s8, (0, 0), 3, "scale: 255/256/257/300 point clouds in one file; 65535/65536/65537 points in one cloud; 300 and 70000 one-point data packets (hooked capacity 1); XYZ + 100..5900 extension records with one point more than a natural data packet takes; 4 bit-packed prototypes x 5 natural capacities + 3 points") },
+            Stage { timeout_s: 120, ..st("c01.s8", c01::s8, (0, 0), 3, "scale: 255/256/257/300 point clouds in one file; 65535/65536/65537 points in one cloud; 300 and 70000 one-point data packets (hooked capacity 1); XYZ + 100..5900 extension records with one point more than a natural data packet takes; 4 bit-packed prototypes x 5 natural capacities + 3 points") },
             st("c01.s2deep", c01::s2deep, (0, 0), 3, "all writer programs of depth exactly 4 (quick: 20 736) / 5 (thorough: 248 832) over a 12-op sub-alphabet (4 blob sizes, 2 images, 6 clouds)"),
             st("c01.s5", c01::s5, (0, 0), 2, "two hooked-capacity clouds around a pad blob at all 255 residues x prototype pairs"),
         ],
@@ -199,7 +199,7 @@ pub fn checks() -> Vec<Check> {
     Check {
         id: "C08",
         level: "model_checking",
-        stages: vec![Stage { timeout_s: 30, ..st("c08.sweep", c08::sweep_nopanic, (0, 0), 3, "33 seeds (e57spec scenes, writer files, 14 bundled files) x the complete single-mutation menu (header fields, XML numeric/type slots, element delete/duplicate/move, prototype conspiracies, section and packet fields, payload flips, truncation/extension, unsealed flips); thorough: pairs with a second numeric mutation and all 64 option vectors; every read entry point per mutant") }],
+        stages: vec![Stage { timeout_s: 120, ..st("c08.sweep", c08::sweep_nopanic, (0, 0), 3, "33 seeds (e57spec scenes, writer files, 14 bundled files) x the complete single-mutation menu (header fields, XML numeric/type slots, element delete/duplicate/move, prototype conspiracies, section and packet fields, payload flips, truncation/extension, unsealed flips); thorough: pairs with a second numeric mutation and all 64 option vectors; every read entry point per mutant") }],
         extra: None,
         rule: "mutation neighbourhood enumerated completely: every item of the finite, ordered menu of every seed; each mutant runs validate_crc, raw_xml, new, descriptor listing, raw and simple iteration (8 / 64 option vectors, to the first Err/None or the step cap) and blob extraction under catch_unwind in a subprocess; overflow checks and debug assertions on; distinct = distinct mutant bytes; non-trivial = mutant ran through all entry points",
         assumptions: &["'all byte strings' is covered as the <=1 (thorough <=2) mutation neighbourhood of the seed corpus under a fixed menu", "memory exhaustion and hangs are attributed to C09"],
@@ -209,7 +209,7 @@ pub fn checks() -> Vec<Check> {
     Check {
         id: "C09",
         level: "model_checking",
-        stages: vec![Stage { timeout_s: 30, ..st("c09.sweep", c08::sweep_budget, (0, 0), 3, "the C08 sweep with per-call budgets: bytes allocated and peak live bytes <= 128*L + 8 MiB (open/XML), 64*L + 192 MiB (iterator steps), L + 1 MiB (blob), device bytes requested <= 4*L + 64 KiB (validate_crc 2*L), every single call < 10 s wall, 30 s (thorough 240 s) watchdog per mutant, iterators yield <= recordCount items; live-byte cap 2 GiB per worker") }],
+        stages: vec![Stage { timeout_s: 120, ..st("c09.sweep", c08::sweep_budget, (0, 0), 3, "the C08 sweep with per-call budgets: bytes allocated and peak live bytes <= 128*L + 8 MiB (open/XML), 64*L + 192 MiB (iterator steps), L + 1 MiB (blob), device bytes requested <= 4*L + 64 KiB (validate_crc 2*L), every single call < 10 s wall, 120 s (thorough 960 s) watchdog per mutant, iterators yield <= recordCount items; live-byte cap 2 GiB per worker") }],
         extra: None,
         rule: "same enumeration as C08; a counting global allocator and a counting device measure every single call (open, each next(), each blob); a worker that exceeds the live-byte cap exits with a distinguished status and the case is reported; distinct = distinct mutant bytes; non-trivial = all calls within budget",
         assumptions: &["budgets are per kind of call; the iterator constant covers the legitimate worst case of one 64 KiB packet of 1-bit values (2^19 values held twice)", "watchdog is a timeout, not a termination proof"],
@@ -224,7 +224,7 @@ pub fn checks() -> Vec<Check> {
             st("c10.protos_base", c10::protos_base, (0, 0), 3, "valid base (XYZ f32 | spherical f64) + <=2 extra records over 25 names x 16 types"),
             st("c10.protos_mutated", c10::protos_mutated, (0, 0), 3, "catalogue prototypes with one record deleted / duplicated / retyped"),
             st("c10.protos_groups", c10::protos_groups, (0, 0), 3, "all name sequences of length 1..4 over the 9 coordinate/colour component names (every combination of missing and repeated group members)"),
-            Stage { timeout_s: 30, ..st("c10.protos_wide", c10::protos_wide, (0, 0), 3, "XYZ + k extension records (64-bit / 1-bit / zero-width) for every k in 5880..5930, 20790..20830, 21650..21700, 60..64 x {1,3} points: every call returns, success implies read-back") },
+            Stage { timeout_s: 120, ..st("c10.protos_wide", c10::protos_wide, (0, 0), 3, "XYZ + k extension records (64-bit / 1-bit / zero-width) for every k in 5880..5930, 20790..20830, 21650..21700, 60..64 x {1,3} points: every call returns, success implies read-back") },
             st("c10.values", c10::values, (0, 0), 3, "unstorable value (9 kinds) at every position 0..8 of a 9-point cloud x 8 integer types x 2 record slots"),
             st("c10.orders", c10::orders, (0, 0), 3, "all sequences of depth <=4 (quick) / <=5 (thorough) over 15 API sessions incl. misuse x 3 finalize modes"),
         ],
@@ -322,7 +322,7 @@ pub fn checks() -> Vec<Check> {
         stages: vec![
             st("c17.histories", c17::histories, (0, 0), 3, "8 file variants (intact; payload / blob / checksum damage; destroyed section id and packet header; illegal invalid-state value in the middle of a cloud; two clouds sharing one GUID) x all read-op histories of depth 3 (thorough 4) on one reader"),
             st("c17.faults", c17::faults, (0, 0), 3, "2 file variants x warm-up op x faulted op x one-shot device error at every device operation of the faulted op x every following op on the healthy device"),
-            Stage { timeout_s: 60, ..st("c17.far", c17::far, (0, 0), 3, "306-page file (cloud of 26000 points, image blob, second cloud) x 17 damaged-page choices (12 pages behind the big cloud, 4 inside it, none) x all ordered pairs of read operations on one reader vs fresh-reader results") },
+            Stage { timeout_s: 120, ..st("c17.far", c17::far, (0, 0), 3, "306-page file (cloud of 26000 points, image blob, second cloud) x 17 damaged-page choices (12 pages behind the big cloud, 4 inside it, none) x all ordered pairs of read operations on one reader vs fresh-reader results") },
             st("c17.pairs", c17::pairs, (0, 0), 3, "page reader on a 300-page image x every damaged page q (payload / checksum bit) x every other page a: read a, read q (must fail), read a, on one reader"),
         ],
         extra: Some(c17::extra),
@@ -354,7 +354,7 @@ pub fn checks() -> Vec<Check> {
             st("c19.layouts", c19::layouts, (2, 3), 3, "11 scenes encoded by e57spec under every layout with <=2 (thorough <=3) deviations: copy, compare as read, copy the copy (byte-identical), write twice (byte-identical)"),
             st("c19.programs", c19::programs, (0, 0), 3, "outputs of all writer programs of depth <=2 (thorough <=3) and 1905 metadata-rich files (every catalogue string in every string field, 5 image kinds rotating)"),
             st("c19.align", c19::align, (0, 0), 3, "first cloud of 0..344 byte-sized points moves the second cloud's section of the copy through all 255 aligned residues of the page payload"),
-            Stage { timeout_s: 60, ..st("c19.bulk", c19::bulk, (0, 0), 3, "4 bit-packed prototypes (12/12/12/2, 10/10/10/8, 7/7/7, 21/21/21/3 bits) x 5 natural packet capacities + 3 points, source encoded independently: copy, compare, copy the copy") },
+            Stage { timeout_s: 120, ..st("c19.bulk", c19::bulk, (0, 0), 3, "4 bit-packed prototypes (12/12/12/2, 10/10/10/8, 7/7/7, 21/21/21/3 bits) x 5 natural packet capacities + 3 points, source encoded independently: copy, compare, copy the copy") },
             st("c19.bundled", c19::bundled, (0, 0), 3, "every bundled /repo/testdata/*.e57 that opens and whose prototypes follow the writer's documented rules"),
             Stage { twice: true, ..st("c19.determinism", c19::determinism, (0, 0), 3, "all writer programs of depth <=2 executed in two separate sets of worker processes: per-case file bytes must be identical") },
         ],
@@ -368,8 +368,8 @@ pub fn checks() -> Vec<Check> {
         id: "C20",
         level: "model_checking",
         stages: vec![
-            Stage { timeout_s: 60, ..st("c20.t1_lattice", c20::t1_lattice, (0, 0), 3, "XYZ -> E57 -> XYZ through the built binaries: every finite f32 of the mini-float lattice + specials in 3 spellings (shortest, exponent, plain decimal) x 3 column rotations, all 256 colour values per channel") },
-            Stage { timeout_s: 60, ..st("c20.t1_shapes", c20::t1_shapes, (2, 2), 3, "line counts {5, 0, 1, cap-1, cap, cap+1} x <=2 deviations over CRLF, missing final newline and 7 line shapes (7+ columns, 5 columns, empty, trailing/leading space, comment)") },
+            Stage { timeout_s: 120, ..st("c20.t1_lattice", c20::t1_lattice, (0, 0), 3, "XYZ -> E57 -> XYZ through the built binaries: every finite f32 of the mini-float lattice + specials in 3 spellings (shortest, exponent, plain decimal) x 3 column rotations, all 256 colour values per channel") },
+            Stage { timeout_s: 120, ..st("c20.t1_shapes", c20::t1_shapes, (2, 2), 3, "line counts {5, 0, 1, cap-1, cap, cap+1} x <=2 deviations over CRLF, missing final newline and 7 line shapes (7+ columns, 5 columns, empty, trailing/leading space, comment)") },
             st("c20.t2_check_crc", c20::t2_check_crc, (1, 1), 3, "e57-check-crc on 6 files + 11 scenes (<=1 layout deviation): intact, every page damaged in payload, in checksum, truncated by a page, by a byte; exit status vs library and independent page check"),
             st("c20.t2_check_crc_dir", c20::t2_check_crc_dir, (0, 0), 3, "directory mode of e57-check-crc: 3 E57 files (one in a sub directory, upper-case extension) + a non-E57 file, none or exactly one damaged (payload / checksum), 3 file sets"),
             st("c20.t3_unpack", c20::t3_unpack, (1, 1), 3, "e57-extract-xml and e57-unpack on the same corpus, intact and with every single page damaged: output files vs raw_xml / xml() / raw values / blob bytes from the library"),
